@@ -227,10 +227,18 @@ fn order_case(ctx: &mut Ctx, case: u64, rng: &mut Rng, s: &mut Session, index: O
 }
 
 fn distinct_case(ctx: &mut Ctx, case: u64, rng: &mut Rng, s: &mut Session, index: Option<&str>) {
-    let cols = *rng.pick(&["a", "b", "c", "a, b", "b, c", "a + b", "d", "a, b, c", "COALESCE(a, 0), b"]);
+    let cols = *rng.pick(&["a", "b", "c", "a, b", "b, c", "a + b", "d", "a, b, c", "COALESCE(a, 0), b", "*", "b, a"]);
     let where_ = if rng.chance(1, 3) { " WHERE a >= 0" } else { "" };
-    let order = if rng.chance(1, 3) { " ORDER BY 1" } else { "" };
-    let limit = if !order.is_empty() && rng.chance(1, 2) { format!(" LIMIT {}", rng.range(0, 4)) } else { String::new() };
+    // ORDER BY by position, or by column names that need not be in the select list (the sort then
+    // leaves equal output rows non-adjacent: DISTINCT must still return each row once)
+    let order = match rng.below(9) {
+        0..=2 => " ORDER BY 1",
+        3 => " ORDER BY a, c",
+        4 => " ORDER BY c",
+        5 => " ORDER BY d, b",
+        _ => "",
+    };
+    let limit = if order == " ORDER BY 1" && cols != "*" && rng.chance(1, 2) { format!(" LIMIT {}", rng.range(0, 4)) } else { String::new() };
     let qd = format!("SELECT DISTINCT {} FROM t{}{}{}", cols, where_, order, limit);
     let qa = format!("SELECT {} FROM t{}", cols, where_);
     ctx.eval();
@@ -246,7 +254,7 @@ fn distinct_case(ctx: &mut Ctx, case: u64, rng: &mut Rng, s: &mut Session, index
     want.sort_by(row_cmp);
     want.dedup_by(|x, y| rows_eq(x, y, 0.0));
     let hist = || s.history.iter().filter(|e| e.sql.starts_with("INSERT") || e.sql.starts_with("CREATE")).map(|e| e.sql.clone()).collect::<Vec<_>>();
-    let shape = format!("distinct|cols={}|{}{}", cols.matches(',').count() + 1, if order.is_empty() { "" } else { "order" }, if limit.is_empty() { "" } else { "+limit" });
+    let shape = format!("distinct|cols={}|{}{}", if cols == "*" { "star".to_string() } else { (cols.matches(',').count() + 1).to_string() }, if order.is_empty() { "" } else if order == " ORDER BY 1" { "order" } else { "order-by-names" }, if limit.is_empty() { "" } else { "+limit" });
     // no row twice
     let mut dd = d.clone();
     dd.sort_by(row_cmp);
